@@ -1927,6 +1927,31 @@ func (ex *Exec) checkCombo(combo []*ThreadPath, final *ThreadPath, finalPC []*Te
 			}
 		}
 	}
+	// failed TryLock / TryRLock: a conflicting critical section of another thread is open at that instant
+	for _, e := range events {
+		if e.Kind != "trylockfail" {
+			continue
+		}
+		var alts []string
+		if partial != nil {
+			alts = append(alts, ghostBefore(e, func(u int) bool { return u != e.Thread })...)
+		}
+		for _, sct := range secs {
+			if sct.lock.Loc != e.Loc || sct.lock.Thread == e.Thread || (sct.read && e.Aux == "r") {
+				continue
+			}
+			if sct.unl != nil {
+				alts = append(alts, fmt.Sprintf("(and %s %s)", lt(sct.lock, e), lt(e, sct.unl)))
+			} else {
+				alts = append(alts, lt(sct.lock, e))
+			}
+		}
+		if len(alts) == 0 {
+			assertf("false")
+		} else {
+			assertf("(or %s)", strings.Join(alts, " "))
+		}
+	}
 	// condition variables
 	condLocs := map[string]bool{}
 	for _, e := range events {
